@@ -48,3 +48,6 @@ pub use ecies::*;
 
 mod interpreter;
 pub use interpreter::*;
+
+#[cfg(feature = "verif-hooks")]
+pub mod verif_hooks;
